@@ -345,7 +345,7 @@ func checkMain(args []string) int {
 			continue
 		}
 		ran++
-		res, err := sym.Explore(prog, full, sym.ExploreOpts{Workers: *workers, Cfg: cfg})
+		res, err := sym.Explore(prog, full, sym.ExploreOpts{Workers: *workers, Cfg: cfg, StopOnFindings: true})
 		if err != nil {
 			inconclusive(fmt.Sprintf("harness=%s engine error: %v", hs.Name, err))
 			continue
@@ -369,7 +369,7 @@ func checkMain(args []string) int {
 		}
 		// vacuity: every required mark reached, at least one path completed
 		for _, m := range hs.Marks {
-			if res.Marks[m] == 0 {
+			if res.Marks[m] == 0 && !res.EarlyStop {
 				inconclusive(fmt.Sprintf("harness=%s vacuous: mark %q never reached", hs.Name, m))
 			}
 		}
@@ -377,6 +377,10 @@ func checkMain(args []string) int {
 			inconclusive(fmt.Sprintf("harness=%s vacuous: no path completed", hs.Name))
 		}
 		// findings: replay natively before reporting
+		violationsBefore := violations
+		if res.EarlyStop {
+			fmt.Printf("harness %s: exploration stopped early: %d counterexamples in hand\n", hs.Name, len(res.Findings))
+		}
 		seenKnown := map[string]bool{}
 		for fi, f := range res.Findings {
 			if f.Unknown {
@@ -414,6 +418,9 @@ func checkMain(args []string) int {
 			fmt.Printf("  harness=%s kind=%s label=%s class=%s msg=%s inputs=%v\n", hs.Name, f.Kind, f.Label, f.Class, f.Msg, f.Model)
 			violations++
 			exit = 1
+		}
+		if res.EarlyStop && violations == violationsBefore {
+			inconclusive(fmt.Sprintf("harness=%s exploration stopped early on counterexamples none of which is a reportable violation", hs.Name))
 		}
 		// translator validation on sampled completed paths
 		if !*noValidate {
